@@ -449,6 +449,7 @@ func checkC16(c *Ctx) {
 	ruleX10(c, "dt", "List", 4)
 	ruleQ8(c)
 	ruleQ9(c)
+	ruleQ9b(c)
 	ruleQ6b(c)
 	ruleQ10(c, 3)
 }
@@ -485,6 +486,7 @@ func checkC18(c *Ctx) {
 	ruleD6d(c)
 	ruleD6e(c)
 	ruleQ9(c)
+	ruleQ9b(c)
 	ruleR1(c, allPkgs, 2)
 	ruleQ67(c)
 	ruleQ34(c, 3)
